@@ -121,3 +121,49 @@ func zzNeutralEdit(kind int, what string) {
 func ZZ_C19_trailing_comma() { zzNeutralEdit(0, "trailing comma") }
 
 func ZZ_C19_redundant_parentheses() { zzNeutralEdit(1, "redundant parentheses") }
+
+// Consistent renaming of a user identifier (C19): the local of `h` / the variable of `main`
+// is given an arbitrary one-letter name (symbolic byte; names that would collide with a
+// declaration of the same scope or capture a name the function still needs are excluded).
+// Shadowing a module-scope name is legal and must change nothing - in particular when the
+// local's initializer mentions the module-scope name it shadows, declared before or after.
+func zzRenameProgram(a, b string) string {
+	return "const g = 3u;\n" +
+		"@group(0) @binding(0) var<storage, read_write> buf: array<u32, 8>;\n" +
+		"fn h(p: u32) -> u32 { let " + a + " = p + g * k; var t = " + a + "; { let " + a + " = t + 1u; t = " + a + "; } return " + a + " * 2u + t; }\n" +
+		"@compute @workgroup_size(1) fn main() { var " + b + " = buf[0]; " + b + " += h(buf[1]); buf[2] = " + b + "; }\n" +
+		"const k = 5u;\n"
+}
+
+func ZZ_C19_consistent_renaming() {
+	want, ok := zzCompileSPV(zzRenameProgram("q", "r"))
+	zz.Assert(ok, "the unedited program is rejected")
+	na := zz.U8("local-name")
+	nb := zz.U8("var-name")
+	zz.Assume(na >= 'a' && na <= 'z' && na != 'p' && na != 't')
+	zz.Assume(nb >= 'a' && nb <= 'z' && nb != 'h')
+	which := zz.Choice("renamed", 2)
+	a, b := "q", "r"
+	if which == 0 {
+		a = string([]byte{na})
+		zz.Cell("rename-local-let")
+	} else {
+		b = string([]byte{nb})
+		zz.Cell("rename-local-var")
+	}
+	got, ok2 := zzCompileSPV(zzRenameProgram(a, b))
+	zz.Assert(ok2, "program rejected after consistently renaming a local identifier (accepted before)")
+	if ok && ok2 {
+		zz.Assert(len(got) == len(want), "generated SPIR-V changes size after consistently renaming a local identifier")
+		if len(got) == len(want) {
+			same := true
+			for i := range got {
+				if got[i] != want[i] {
+					same = false
+				}
+			}
+			zz.Assert(same, "generated SPIR-V differs after consistently renaming a local identifier")
+		}
+	}
+	zz.Reach("end")
+}
